@@ -530,6 +530,32 @@ fn first_diff(a: &str, b: &str) -> String {
     format!("at byte {first}: stand-alone …{}… / here …{}…", cut(a), cut(b))
 }
 
+/// (rust module, identifier) pairs the linker may import into `m` on its own: the governing
+/// types of the values `m` imports
+fn associated_of(p: &SubPlan, refs: &SubRef, m: &gen::Module) -> BTreeSet<(String, String)> {
+    let name_of = |modname: &str| p.set.modules.iter().position(|x| x.name == modname).and_then(|i| refs.block_name[i].clone());
+    let attr_of = |modname: &str, sym: &str| -> BTreeSet<String> {
+        p.set.modules.iter().position(|x| x.name == modname).and_then(|i| refs.attribution[i].get(sym).cloned()).unwrap_or_default()
+    };
+    let mut associated = BTreeSet::new();
+    for imp in &m.imports {
+        let Some(em) = p.set.get(&imp.from) else { continue };
+        for sym in &imp.symbols {
+            for a in em.assigns.iter().filter(|a| &a.name == sym && a.kind == AKind::Value) {
+                for r in &a.refs {
+                    let home = em.imports.iter().find(|i| i.symbols.contains(r)).map(|i| i.from.clone()).unwrap_or(em.name.clone());
+                    if let Some(target) = name_of(&home) {
+                        for ident in attr_of(&home, r) {
+                            associated.insert((target.clone(), ident));
+                        }
+                    }
+                }
+            }
+        }
+    }
+    associated
+}
+
 /// Oracle C on one module's block of one compilation
 fn check_imports(out: &mut Outcome, p: &SubPlan, refs: &SubRef, mi: usize, block: &ModBlock, ctx: &str) {
     let BackendSel::Rasn(cfg) = &p.backend else { return };
@@ -587,17 +613,40 @@ fn check_imports(out: &mut Outcome, p: &SubPlan, refs: &SubRef, mi: usize, block
                     em.assigns.iter().any(|a| &a.name == s && a.kind == AKind::Value && a.refs.iter().any(|r| attr_of(&imp.from, r).contains(&extra)))
                 })
             });
+            let assoc_ok = assoc_ok || name_of(&imp.from).is_some_and(|t| associated_of(p, refs, m).contains(&(t, extra.clone())));
             if !assoc_ok {
                 out.violate("imports-become-use", format!("`{}` names {extra}, which is not among the imported symbols {:?} nor the type of an imported value; {ctx}", decl_text, imp.symbols));
             }
         }
     }
-    // no use declaration of a sibling module the source does not import from
+    // no use declaration of a sibling module the source does not import from — except for the
+    // governing types of imported values, which the linker imports on its own (documented
+    // behaviour, validator/mod.rs "associated type imports"); such a type may live in a third
+    // module when the exporting module imported it itself
+    let mut associated: BTreeSet<(String, String)> = BTreeSet::new(); // (rust module, ident)
+    for imp in &m.imports {
+        let Some(em) = p.set.get(&imp.from) else { continue };
+        for sym in &imp.symbols {
+            for a in em.assigns.iter().filter(|a| &a.name == sym && a.kind == AKind::Value) {
+                for r in &a.refs {
+                    let home = em.imports.iter().find(|i| i.symbols.contains(r)).map(|i| i.from.clone()).unwrap_or(em.name.clone());
+                    if let Some(target) = name_of(&home) {
+                        for ident in attr_of(&home, r) {
+                            associated.insert((target.clone(), ident));
+                        }
+                    }
+                }
+            }
+        }
+    }
     let allowed: BTreeSet<String> = m.imports.iter().filter_map(|i| name_of(&i.from)).collect();
     for u in &sibling_uses {
         if u.path.len() == 2 && !allowed.contains(&u.path[1]) {
-            // modules that are only referenced with a module-qualified name are not imported
-            out.violate("imports-become-use", format!("`{}` refers to a module the source has no IMPORTS clause for; {ctx}", u.text));
+            let all_associated = u.names.iter().all(|n| associated.contains(&(u.path[1].clone(), n.clone())))
+                || (cfg.default_wildcard_imports && u.names.len() == 1 && u.names.contains("*") && associated.iter().any(|(md, _)| md == &u.path[1]));
+            if !all_associated {
+                out.violate("imports-become-use", format!("`{}` refers to a module the source has no IMPORTS clause for; {ctx}", u.text));
+            }
         }
     }
     // module-qualified references resolve to that module
